@@ -1,13 +1,13 @@
 #!/bin/bash
 # verify_seed.sh <worktree> <seed_dir> : confirm a seeded change (suite green with it, demo red with it, demo green without it)
-WT=$1; SD=$2
+WT=$1; SD=$2; CR=${3:-cgt-core}
 export CARGO_TARGET_DIR=$WT/target CARGO_NET_OFFLINE=true
 cd $WT || exit 2
 git checkout -q -- . ; git clean -fdq -e target   # never git stash: the stash is shared by all worktrees of /repo
 DEMO=$(ls $SD/demo/*.rs $SD/*.rs 2>/dev/null | head -1)
-cp $DEMO crates/cgt-core/tests/seed_demo.rs
-echo "== demo WITHOUT change"; cargo test --offline -q -p cgt-core --test seed_demo 2>&1 | grep -E "^test result" | head -3
+cp $DEMO crates/$CR/tests/seed_demo.rs
+echo "== demo WITHOUT change"; cargo test --offline -q -p $CR --test seed_demo 2>&1 | grep -E "^test result" | head -3
 git apply $SD/patch.diff || { echo "patch does not apply"; exit 2; }
-echo "== demo WITH change"; cargo test --offline -q -p cgt-core --test seed_demo 2>&1 | grep -E "^test result" | head -3
-rm crates/cgt-core/tests/seed_demo.rs
+echo "== demo WITH change"; cargo test --offline -q -p $CR --test seed_demo 2>&1 | grep -E "^test result" | head -3
+rm crates/$CR/tests/seed_demo.rs
 echo "== suite WITH change"; cargo test --workspace --offline --no-fail-fast 2>&1 | grep -E "^test result" | awk '{p+=$4; f+=$6} END {print "passed",p,"failed",f}'
